@@ -481,7 +481,33 @@ func (k *ksGen) restore(src *kgInst, w *kgWallet, n int) *kgInst {
 	k.catchUp(dst)
 	k.observe(dst)
 	k.op("q-mnem", "mnem %d %s", n, w.name)
+	if nw.in > 0 {
+		// change addresses exist beside receiving addresses at the same child indexes: exercise the
+		// gap-limit window right there (cache as loaded by the import, or as reloaded by a restart)
+		if r.Intn(2) == 0 {
+			k.op("restart", "restart %d", n)
+		}
+		var pays []string
+		if r.Intn(2) == 0 {
+			pays = append(pays, fmt.Sprintf("%s.1.%d", w.name, r.Intn(nw.in)))
+			k.g.Stats["pay-internal"]++
+		} else {
+			pays = append(pays, exName(w.name, nw.ex-1-r.Intn(minInt(nw.ex, dst.gap))))
+		}
+		k.block(dst, pays, true)
+		for i := 0; i < 1+r.Intn(dst.gap+1); i++ {
+			k.newaddr(dst, nw)
+		}
+		k.g.Stats["window-over-change-addresses"]++
+	}
 	return dst
+}
+
+func minInt(a, b int) int {
+	if a < b {
+		return a
+	}
+	return b
 }
 
 func (k *ksGen) sign(in *kgInst, w *kgWallet) {
